@@ -81,4 +81,14 @@ PROPS['C05'] = {
                    'differential execution and an expand() oracle on find_sec / PLSSDesc / Tract for random items x connective spellings x keywords.',
 }
 
+PROPS['C06'] = {
+    'group': 'tract',
+    'level': 'proof',
+    'explanation': 'PARTIAL. Proved for all lists about the model of TractParser: duplicate detection is exact (find_duplicates = [] iff NoDup, every report is a real repeat), '
+                   'dup_lot/dup_qq warnings are appended exactly when a lot/aliquot repeats and nothing else is, the leading aliquot is applied to exactly the first '
+                   'aliquots_through lots. That each comma/semicolon-separated element is matched independently by the regenerated patterns (the extraction loops) is not a theorem; '
+                   'it is carried by differential execution of the model and by a metamorphic oracle on the real code (whole = concatenation of the parts). '
+                   'Refuted with witnesses and listed as known findings: newline after an aliquot does not separate; ALL followed by another element is dropped.',
+}
+
 NOT_CLAIMED = {}
